@@ -5,6 +5,7 @@
 //!   fv path <suite> <i,j,k>                  run one SEQ history verbosely
 //!   fv smoke                                 timing / sanity
 
+mod crash;
 mod layoutref;
 mod model;
 mod props;
